@@ -186,11 +186,11 @@ class Relay:
         step = chop or len(data)
         for o in range(0, len(data), step):
             piece = data[o:o + step]
+            rec["s2c"].append(bytes(piece))      # recorded before it can be seen by the client
             try:
                 dst.sendall(piece)
             except OSError:
                 return
-            rec["s2c"].append(bytes(piece))
 
     def pump_s2c(self, src, dst, rec, pol):
         cut = pol.get("k") if pol.get("dir") == "s2c" else None
